@@ -211,7 +211,9 @@ CHECKS = {
              "shortcuts - two different texts proved to take the same decisions - and the to_ascii route) fail exactly "
              "when the Standard's host parser fails, store the serialisation of its host, and host_type is the kind of "
              "that host (host_kind_truthful); ada::idna::to_ascii is a parameter assumed, at the one domain asked about, "
-             "to give ASCII lower-case output and to lower-case all-ASCII domains without ACE labels. Spec theorems: ipv4Parse(ipv4Serialize a)=a for every a<2^32, "
+             "to give ASCII lower-case output and to lower-case all-ASCII domains without ACE labels (IdnaAt; the real "
+             "to_ascii is asked on ~7000 generated domains per quick run - all 128 ASCII bytes, near-ACE spellings, mixed "
+             "scripts - and must satisfy exactly that). Spec theorems: ipv4Parse(ipv4Serialize a)=a for every a<2^32, "
              "ipv6Parse(ipv6Serialize a)=a for every eight 16-bit pieces, forbidden host/domain tables equal the Standard's "
              "sets, parsed hosts are well-formed. L1: every kernel is called directly (both twins) and compared with the Lean "
              "model on generated texts; the implementation is compared with the Spec on href, host, port, host kind and "
